@@ -115,6 +115,7 @@ type vcCtx struct {
 	fuel   int
 	allocs []*Term // references allocated so far (in execution order)
 	defined map[string]*Term // definitions of the constants introduced by define
+	reveal  []string         // recursive spec functions of other packages that are unfolded here (contract keyword `reveal`)
 }
 
 func (c *vcCtx) assume(t *Term) {
@@ -258,11 +259,26 @@ func (f *frame) define(name string, t *Term) *Term {
 	if len(t.String()) < 40 {
 		return t
 	}
-	c := Const(name, t.Sort)
-	f.c.facts = append(f.c.facts, Eq(c, t))
 	if f.c.defined == nil {
 		f.c.defined = map[string]*Term{}
 	}
+	// a name is defined once: a second definition under the same name (two state merges after two
+	// inlined calls in one caller block, say) gets a name of its own - otherwise the two states would be
+	// one constant constrained by both definitions
+	if old, ok := f.c.defined[name]; ok {
+		if old.String() == t.String() && old.Sort == t.Sort {
+			return Const(name, t.Sort)
+		}
+		for k := 2; ; k++ {
+			n2 := fmt.Sprintf("%s~%d", name, k)
+			if _, taken := f.c.defined[n2]; !taken {
+				name = n2
+				break
+			}
+		}
+	}
+	c := Const(name, t.Sort)
+	f.c.facts = append(f.c.facts, Eq(c, t))
 	f.c.defined[name] = t
 	return c
 }
